@@ -2060,6 +2060,11 @@ class Block(_IRNode, IRWithUses, IRWithName):
             context[arg] = other_arg
         # Add self to the context so Operations can check for identical parents
         context[self] = other
+        # Register the results of all operations up front, so that values used before
+        # their definition (e.g. in graph regions) can be matched
+        for op, other_op in zip(self.ops, other.ops):
+            for result, other_result in zip(op.results, other_op.results):
+                context[result] = other_result
         if not all(
             op.is_structurally_equivalent(other_op, context)
             for op, other_op in zip(self.ops, other.ops)
@@ -2698,6 +2703,13 @@ class Region(_IRNode):
         # the corrects successors
         for block, other_block in zip(self.blocks, other.blocks):
             context[block] = other_block
+            # Also register the values defined in each block, as a block may use values
+            # defined in a block that comes later in the region
+            for arg, other_arg in zip(block.args, other_block.args):
+                context[arg] = other_arg
+            for op, other_op in zip(block.ops, other_block.ops):
+                for result, other_result in zip(op.results, other_op.results):
+                    context[result] = other_result
         if not all(
             block.is_structurally_equivalent(other_block, context)
             for block, other_block in zip(self.blocks, other.blocks)
